@@ -49,5 +49,9 @@ def run(ctx, pid, extra=()):
 def replay(ctx, path, extra=()):
     from checks import x06
     x06.replay(ctx, path)
+    if not ctx.cov.get("samples"):
+        import json
+        with open(path) as f:
+            ctx.cov["samples"] = [json.load(f)]
     keep = set(FORMULAS) | set(extra) | {f for fs in EXTRA.values() for f in fs}
     ctx.violations = [v for v in ctx.violations if v["formula"] in keep]
